@@ -1,7 +1,7 @@
 from engine import Query
 META = {
  'functions': ['Value<char>::GroupBy (Value.hpp:1849-1912) on the real Value / HArray<String,Value> / Array<Value>, with operator[], operator+=, GetValue, GetKey, SetCharAndLength, CopyValueTo'],
- 'bounds': 'arrays of 2 (quick) / 3 (thorough) objects built through the public API, each with the grouping key and one other member in every order (m2 queries: the first object has a further member the others lack) (member order concrete per query, all 2^n combinations), '
+ 'bounds': 'arrays of 2 (quick) / 3 (thorough) objects built through the public API, each with the grouping key and one other member in every order (m2 queries: the first object has a further member the others lack; m3 queries: the last object lacks the grouping key and GroupBy must fail) (member order concrete per query, all 2^n combinations), '
            'grouping-key values from a concrete pattern per query covering every set partition of the objects into groups, as one-unit strings, booleans and null/string mixes; other members symbolic 64-bit numbers (the solver decides over those). A symbolic key text makes the hash-table shape symbolic and gives no verdict in 300 s',
  'outside': 'numeric grouping-key values (group name through NumberToString: no verdict in 400 s), more than 3 input objects, more than 3 members per object, nested member values, objects with removed members, the <loop group=...> attribute (template renderer)',
  'assumptions': ['Digit::stringToNumber is replaced by a stub that asserts it is never reached (no string->number coercion is part of grouping); likewise Digit::realToString (no real-number formatting)'],
@@ -20,7 +20,8 @@ def queries(tier):
                     if tier == 'quick' and kind in (1, 2) and ordm not in (0, 2): continue
                     first_has_key_first = (ordm & 1) == 0
                     differs = any(((ordm >> i) & 1) != (ordm & 1) for i in range(n))
-                    for mk in (0, 1, 2):
+                    for mk in (0, 1, 2, 3):
+                      if mk == 3 and (kind != 0 or pat != 0 or (tier == 'quick' and ordm not in (0, 3))): continue
                       if mk == 1 and kind != 0 and tier == 'quick': continue
                       if mk == 2 and (kind != 0 or (tier == 'quick' and ordm not in (0, 1))): continue
                       qs.append(Query('group/n%d/ord%d/pat%d/kind%d/m%d' % (n, ordm, pat, kind, mk), 'C18_groupby.cpp', 'h_group', {'NOBJ': n, 'ORD': ordm, 'PAT': pat, 'KIND': kind, 'MKIND': mk},
